@@ -354,7 +354,10 @@ def _sort_values(g: G, flt: str) -> tuple[Any, bool]:
     if flt == "sort":
         return (G.t_key, True) if g.p(0.5) else (_sortable_num, False)
     if flt == "sort_natural":
-        return (lambda h: h.t_key() if h.p(0.7) else h.int(0, 1200)), True
+        # "forced to lowercase" is str.lower(), which differs from casefold() on these
+        special = ["Stra\u00dfe", "STRAST", "strasse", "\u017f", "s", "S", "\u03c2", "\u03c3", "\u03a3", "\ufb01", "fi", "FI",
+                   "\u0130", "i", "I", "\u00df", "ss", "st"]
+        return (lambda h: h.one(special) if h.p(0.2) else h.t_key() if h.p(0.7) else h.int(0, 1200)), True
     return (lambda h: h.one([True, False, 1.0, 0.0, 1, 0]) if h.p(0.12) else _version(h) if h.p(0.6)
             else h.int(-20, 120) if h.p(0.6) else h.dec_float()), True
 
